@@ -57,6 +57,15 @@ func Tokenize(s string) (toks []Tok, modes []Mode, lexErr bool) {
 			continue
 		}
 		if m.ExpectSymbol {
+			// comments are trivia between `_` and its symbol as between any two tokens
+			for i < len(rs) && rs[i] == ';' {
+				for i < len(rs) && rs[i] != '\n' {
+					i++
+				}
+				for i < len(rs) && unicode.IsSpace(rs[i]) {
+					i++
+				}
+			}
 			if i < len(rs) && isSymbolRune(rs[i]) {
 				j := i
 				for j < len(rs) && isSymbolRune(rs[j]) {
